@@ -29,6 +29,12 @@ D = decimal.Decimal
 EXOTIC = ['\x0c', '\x0b', '\x85', ' ', ' ', '\x1c', '\x1d', '\x1e', '\x00', ' ', '　', '﻿', '😀', 'é', 'é', 'ß', '中']
 PLAIN = list('abcXYZ019 _-.,:;#*!@"\'\\/(){}[]<>~^&%$+=?|`') + ['\t', '  ']
 FLAGS = list('*!&#?%PSTCURM')
+BAD_RAW = {
+    'Date': ['2020-02-31', '2021-13-01', '2020-00-10', 'garbage'],
+    'Number': ['12..5', '1,2,3.4.5', 'abc', ''],
+    'Bool': ['True', 'yes', ''],
+    'BlockComment': ['no semicolon', '; ok\nnot a comment line'],
+}
 CLASSES = ['EscapedString', 'EscapedString', 'BlockComment', 'BlockComment', 'InlineComment', 'Date', 'Number', 'Bool',
            'Account', 'Currency', 'Tag', 'Link', 'MetaKey', 'TransactionFlag', 'PostingFlag', 'Indent']
 
@@ -76,8 +82,8 @@ def gen_value(rng: random.Random, cls: str) -> Any:
         r = rng.random()
         if r < 0.3:
             return D(rng.choice(['0', '1', '10.00', '0.5', '1234567.89', '0.000000001', '1E+3', '1E-7', '0E-10', '12345678901234567890.123',
-                                 '100', '1.10', '7.', '0.0', '1E+20']))
-        digits = ''.join(rng.choice('0123456789') for _ in range(rng.choice([1, 2, 5, 12])))
+                                 '100', '1.10', '7.', '0.0', '1E+20', '12345678901234567890.1234567890123', '0.1234567890123456789012345678901']))
+        digits = ''.join(rng.choice('0123456789') for _ in range(rng.choice([1, 2, 5, 12, 29, 40])))
         exp = rng.choice([0, 0, -1, -3, -9, -12, 2, 5])
         return D(int(digits)).scaleb(exp)
     if cls == 'Bool':
@@ -227,15 +233,22 @@ class TokSim(core.Engine):
             if rng is not None:
                 if step > n_ops:
                     break
-                kinds = ['value', 'value', 'raw'] + (['indent'] if cls == 'BlockComment' else [])
+                kinds = ['value', 'value', 'raw'] + (['indent'] if cls == 'BlockComment' else []) + (['raw_bad'] if cls in BAD_RAW else [])
                 k = rng.choice(kinds)
-                if k == 'value':
+                if k == 'raw_bad':
+                    op = {'op': 'raw_bad', 'v': rng.choice(BAD_RAW[cls])}
+                    ops.append(op)
+                    k = None
+                if k is None:
+                    pass
+                elif k == 'value':
                     op = {'op': 'value', 'v': enc(gen_value(rng, cls))}
                 elif k == 'raw':
                     op = {'op': 'raw', 'v': gen_lexeme(rng, cls)}
                 else:
                     op = {'op': 'indent', 'v': rng.choice(['', ' ', '  ', '\t', '    ', ' \t'])}
-                ops.append(op)
+                if k is not None:
+                    ops.append(op)
             else:
                 if step - 1 >= len(ops):
                     break
@@ -243,7 +256,21 @@ class TokSim(core.Engine):
             v = dec(op['v'])
             what = f'{cls}.{op["op"]} = {v!r}'
             try:
-                if op['op'] == 'value':
+                if op['op'] == 'raw_bad':
+                    # a text the token type cannot represent: the assignment must be refused and leave no trace
+                    old_raw, old_val = tok.raw_text, tok.value
+                    try:
+                        tok.raw_text = v
+                        refused = False
+                    except Exception:
+                        refused = True
+                    stats['fault:unrepresentable_raw_text'] += 1
+                    if refused and (tok.raw_text != old_raw or tok.value != old_val):
+                        V.append(Violation('C12', 'refused_raw_text_left_a_trace', step,
+                                           f'{what} was refused but the token now holds raw text {tok.raw_text!r} / value {tok.value!r} (before: {old_raw!r} / {old_val!r})'))
+                    elif not refused:
+                        stats['unrepresentable_raw_text_accepted'] += 1
+                elif op['op'] == 'value':
                     tok.value = v
                     if tok.value != v or type(tok.value) != type(v):
                         V.append(Violation('C12', 'value_readback', step, f'{what}: value reads {tok.value!r}'))
